@@ -26,7 +26,7 @@ impl Deck {
         let mut ones = 0u8;
         let mut deck = u64::from(self.0);
         let mut card = u64::from(self.0).trailing_zeros() as u8;
-        while ones < i {
+        while ones <= i {
             card = deck.trailing_zeros() as u8;
             deck = deck & (deck - 1);
             ones = ones + 1;
